@@ -35,7 +35,7 @@ def check(ctx):
 
     _signatures(ctx, "R-SIG", classes=('skmatter.preprocessing.KernelNormalizer', 'skmatter.preprocessing.SparseKernelCenterer'))
     P = ctx.P
-    N = ctx.normalizer()
+    N = ctx.normalizer(vector_syms=("w",))
     cls = P.cls(KN)
     for wc in (True, False):
         for wt in (True, False):
